@@ -152,6 +152,11 @@ def r156(ctx, fx):
         ("shared-occurrences", shared_guard(bodies),
          "the rename handler does not check, for *every* usage of the symbol, whether the occurrence also stands for a symbol defined elsewhere (a name in a macro body is looked up per invocation): "
          "renaming `a.target` rewrites the `jmp target` of the macro and the invocation in `b` no longer assembles"),
+        ("no-lookup-by-name", not (calls_any("SymbolTable::<S>::query_traversal_steps") or calls_any("SymbolTable::query_traversal_steps") or
+                               calls_any("query_steps_to_path")),
+         "the rename handler looks the old text of a usage up again by name and rebuilds the new text from what it finds: the lookup is not the assembler's (a macro "
+         "name that a label shadows is found as the label; a symbol known through an exported copy of its name keeps that copy), and the occurrence is `renamed` to its "
+         "old name"),
         ("all-copies", calls_any("Analysis::symbols_written_at"),
          "the rename handler renames only the copies of the symbol that have an occurrence at the position of the request: started at a usage of a symbol from a file "
          "that is imported twice, the usages that reach it through the other import keep the old name and the project no longer assembles"),
@@ -232,12 +237,47 @@ def r157(ctx, fx):
                             repr(lib.hdesc(init))[:80] if init is not None else name), "%s:%s" % (f.file, lit.get("ln")))
 
 
+def r158(ctx, fx):
+    rid = ctx.rule("R15.8", "the edits of the copies of a symbol are united: nowhere in the rename code is a map from document to edit list filled with `extend` from "
+                   "another such map or with `insert` of a whole list (both replace the list a document already has — a file that uses two copies of the symbol, "
+                   "through two imports, keeps the old name at the usages of the first); lists are merged per document (`entry(..).or_default().extend(..)`, or "
+                   "a flat list of (document, edit) pairs grouped at the end)")
+    bodies = rename_bodies(fx)
+    if not bodies:
+        ctx.fail_closed(rid, "RenameHandler::handle not found")
+        return
+    n = 0
+    for b in bodies:
+        for o in lib.owned(fx, b):
+            for bi, t in lib.calls(o):
+                p, fr = lib.callee(t)
+                pn = lib.norm(p or "")
+                full = fr.get("full", "") or ""
+                if not (pn.endswith(("::extend", "::insert")) and t.get("args")):
+                    continue
+                rl = lib.op_local(t["args"][0])
+                rty = o.locals[rl]["ty"] if rl is not None else ""
+                if "HashMap<" not in rty and "BTreeMap<" not in rty and "IndexMap<" not in rty:
+                    continue
+                if "TextEdit" not in rty or "Vec<" not in rty:
+                    continue
+                n += 1
+                key = "%s|edit-lists-replaced#%d" % (b.path.rsplit("::", 1)[-1], n)
+                ctx.inst(rid, key, sample={"fn": o.path, "call": pn.rsplit("::", 1)[-1], "line": t.get("line")})
+                ctx.finding(rid, key, "%s fills a map from document to edit list with `%s`: the list of a document that is already there is replaced, so of two copies of "
+                            "the symbol that are used in one file only the last one's usages are renamed" % (o.path.rsplit("::", 1)[-1], pn.rsplit("::", 1)[-1]),
+                            "%s:%s" % (o.file, t.get("line")))
+    ctx.inst(rid, "rename|scan", sample={"bodies": len(bodies), "map_fills_with_whole_lists": n})
+
+
 def run(ctx):
     fx = ctx.facts
     cg = lib.CallGraph(fx)
     r155(ctx, fx)
     r156(ctx, fx)
-    r157(ctx, fx)
+    # R15.7 (usage scope = defining scope) was withdrawn: since repair 92869d5 the rename handler no longer consults the scope recorded with a usage, so
+    # the clause is no necessary condition of anything observable any more (DESIGN §9)
+    r158(ctx, fx)
     r161(ctx, fx, "R15.1")
     r162(ctx, fx, cg, "R15.2")
     r163(ctx, fx, "R15.3")
